@@ -172,6 +172,16 @@ def lebPayloads (bs : Bits) : Nat → Nat → Option (List Nat)
 
 def lebValue (ps : List Nat) : Nat := ps.foldr (fun p acc => p + 128 * acc) 0
 
+/-- index k of the first all-zero unit of `rest` cut into whole units (the definition of a
+    null-terminated string; written here independently of the model's search) -/
+def firstZeroUnit (unit : Nat) : Nat → Bits → Nat → Option Nat
+  | 0, _, _ => none
+  | fuel+1, rest, k =>
+    let u := rest.take unit
+    if u.length < unit then none
+    else if u.all (· == false) then some k
+    else firstZeroUnit unit fuel (rest.drop unit) (k + 1)
+
 def expectOf (bs : Bits) (pos : Nat) (fn : CoreFn) (av : List ArgVal) : Option Expect :=
   let L := bs.length
   let fits (n : Nat) : Bool := n == 0 || pos + n ≤ L
@@ -253,8 +263,7 @@ def expectOf (bs : Bits) (pos : Nat) (fn : CoreFn) (av : List ArgVal) : Option E
     -- the string ends at the FIRST all-zero unit on the grid pos + k·(8·cb); value = the bytes before it
     if cb < 1 then some { sat := false } else
     let unit := 8 * cb.toNat
-    let ks := (List.range ((L - pos) / unit + 1)).filter fun k => pos + (k + 1) * unit ≤ L
-    match ks.find? fun k => (slice bs (pos + k * unit) unit).all (· == false) with
+    match firstZeroUnit unit (L / unit + 1) (bs.drop pos) 0 with
     | none => some { sat := false }
     | some k => some { sat := true, consumed := (k + 1) * unit,
                        value := some (.t (decodeText e (byteVals (slice bs pos (k * unit))))) }
@@ -316,6 +325,26 @@ def rawCall (bs : Bits) (pos : Nat) (method : String) (av : List ArgVal) : Optio
     some ⟨if n < 0 then .err .other pos else (tryBits bs pos n.toNat).map fun b => .bits n.toNat (byteVals b), none⟩
   | _, _ => none
 
+/-- the <hex> field: `.`-joined segments, each `<hexbytes>` or `<n>x<hexbytes>` (repeated n times) -/
+def appendN (acc : Array UInt8) (b : List UInt8) : Nat → Array UInt8
+  | 0 => acc
+  | n+1 => appendN (acc ++ b.toArray) b n
+
+def expandSeg (acc : Array UInt8) (seg : String) : Option (Array UInt8) :=
+  match seg.splitOn "x" with
+  | [h] => (bytesOfHex h).map fun (b : List UInt8) => acc ++ b.toArray
+  | [n, h] =>
+    match n.toNat?, bytesOfHex h with
+    | some n, some b => if n > 16777216 then none else some (appendN acc b n)
+    | _, _ => none
+  | _ => none
+
+def expandHex (s : String) : Option (List UInt8) :=
+  if s == "-" then some [] else
+  match (s.splitOn ".").foldlM expandSeg (#[] : Array UInt8) with
+  | some a => some a.toList
+  | none => none
+
 def shapeOk (sh : String) (L : Nat) : Bool :=
   let ints (t : String) : Option (List Nat) := if t.isEmpty then some [] else (t.splitOn ",").mapM (·.toNat?)
   let sortedIn (bs : List Nat) : Bool := bs.all (· ≤ L) && (bs.zip (bs.drop 1)).all fun (a, b) => a ≤ b
@@ -329,6 +358,10 @@ def shapeOk (sh : String) (L : Nat) : Bool :=
   | ["k", k] => match k.toNat? with
     | some k => k ≥ 1
     | none => false
+  -- a regular file through the interpreter's reader stack: window offset, file size, priming reads
+  | ["f", w, n, ps] => match w.toNat?, n.toNat?, ints ps with
+    | some w, some n, some ps => decide (8 * w + L ≤ 8 * n) && ps.all (· < n)
+    | _, _, _ => false
   | _ => false
 
 /-- the read after the call: k = min(16, bits left) bits at the position the call left -/
@@ -359,7 +392,7 @@ def stepC02 (op0 obs0 : String) : String :=
   let (obs, nx) := splitNx obs0
   match words op with
   | "rd" :: sL :: hex :: spos :: sEnd :: method :: args =>
-    match sL.toNat?, bytesOfHex hex, spos.toNat?, parseArg sEnd, args.mapM parseArg with
+    match sL.toNat?, expandHex hex, spos.toNat?, parseArg sEnd, args.mapM parseArg with
     | some L, some bytes, some pos, some (.endian cur), some av =>
       let all := bytesToBits bytes
       if L > all.length then "BADOP L-beyond-hex" else
